@@ -18,8 +18,9 @@ Inductive cutpos := NoModel | HMid (j : N) | HLines (j : N) | BBin (j : N) | BTo
 Inductive case :=
 | CStl (file : list N) (obs : list (N * N * bool))                    (* cut, class, result == full decode *)
 | CSplat (file : list N) (obs : list (N * N * (N * bool * bool)))     (* cut, class, (#splats, error?, first #splats equal) *)
-| CPts (count : Z) (lines : list line) (obs : list ((bool * nat * nat) * N * option pts_result))
-                                                                      (* (count present, complete lines, tokens of partial line) *)
+| CPts (count : Z) (lines : list line) (obs : list ((bool * nat * nat * ptok) * N * option pts_result))
+       (* EVERY byte cut: (count present, complete lines, complete tokens of the next line, what a number cut in the
+          middle reads as) *)
 | CSpz (len need : N) (plain : list N) (obs : list (N * N * bool * N))
        (* need: first cut at which compress/flate yields the whole plaintext; per cut: class, == full decode,
           number of plaintext bytes the compressed prefix inflates to *)
@@ -37,6 +38,11 @@ Inductive case :=
        (* .splat past the thresholds: cut, class, (#splats, error?, first #splats equal to those of the full decode) *)
 
 Definition count_of (has : bool) (c : Z) : option Z := if has then Some c else None.
+(* a shorter spelling that does not read as a number, at column m of its line (m complete fields before it), is a
+   strconv error only if the reader parses that column: x y z and the intensity always, the colour columns only on a
+   line of more than six fields -- so of columns 4..6 only the seventh *)
+Definition pbad_read (p : ptok) (m : nat) : bool :=
+  match p with PBad => (m <=? 3)%nat || (m =? 6)%nat | _ => false end.
 
 Definition ascii_prefix (ls : list (list tok)) (j m : nat) : list (list tok) :=
   firstn j ls ++ (match m with O => [] | _ => [firstn m (nth j ls [])] end).
@@ -73,11 +79,13 @@ Definition corr_ok (c : case) : bool :=
         let '(rs, ok) := Splat.read_raw (List.length p) p in
         (N.of_nat (List.length rs) =? n) && Bool.eqb ok (negb err)) obs
   | CPts count lines obs =>
-      forallb (fun '((has, j, m), cls, res) =>
-        match pts_read (count_of has count) (pts_prefix lines j m), res with
-        | Some r, Some r' => (cls =? 0) && pts_result_eqb r r'
-        | None, None => cls =? 1
-        | _, _ => false
+      forallb (fun '((has, j, m, p), cls, res) =>
+        match pbad_read p m, pts_read (count_of has count) (pts_prefix_p lines j m p), res with
+        | true, _, None => cls =? 1                 (* a field the reader parses is not a number: strconv error *)
+        | true, _, Some _ => false
+        | _, Some r, Some r' => (cls =? 0) && pts_result_eqb r r'
+        | _, None, None => cls =? 1
+        | _, _, _ => false
         end) obs
   | CSpz _ _ plain obs =>
       forallb (fun '(k, cls, _, plen) =>
@@ -111,10 +119,13 @@ Definition prop_ok (c : case) : bool :=
       forallb (fun '(k, cls, (n, err, eq)) =>
         (cls =? 0) && (n =? k / 32) && eq && Bool.eqb err (negb (k mod 32 =? 0))) obs
   | CPts count lines obs =>
-      forallb (fun '((has, j, m), cls, res) =>
+      (* accepted only if every value is a token PRESENT in the prefix (a number cut in the middle that still reads
+         as a number is such a token: the prefix is a valid file of its own; one that does not must be rejected) *)
+      forallb (fun '((has, j, m, p), cls, res) =>
         match res with
         | None => cls =? 1
-        | Some r => (cls =? 0) && no_placeholderb (count_of has count) (pts_prefix lines j m) r
+        | Some r => (cls =? 0) && negb (pbad_read p m) &&
+                    no_placeholderb (count_of has count) (pts_prefix_p lines j m p) r
         end) obs
   | CHostile _ len _ cls ms peak =>
       (* resources follow the input present, not the count the header announces *)
